@@ -433,6 +433,17 @@ pub fn oracle(c: &CurveCase, cur: &Result<Curve, String>, out: &mut Out) -> Opti
     let natural = nat.dist();
     let d11 = |p: &[Pos]| p.last().map_or(false, |q| q.x.is_nan() || q.y.is_nan());
 
+    // D14: an ill-conditioned three-point perfect curve (nearly collinear or nearly coincident
+    // points) puts non-finite vertices into the *unadjusted* path; everything downstream
+    // (lengths, distance) is then non-finite as well
+    if has_type(&c.pts, 4) && npath.iter().any(|p| !p.x.is_finite() || !p.y.is_finite()) {
+        out.oracle_checks += 1;
+        out.count("oracle:D14");
+        if out.dist.get("oracle:D14").copied().unwrap_or(0) <= 25 {
+            out.fail("D14", &d, "the unadjusted path of a perfect-curve segment has a non-finite vertex");
+        }
+        return None;
+    }
     // cumulative lengths start at 0, never decrease beyond 1e-5, stay finite
     out.oracle_checks += 1;
     if lens.is_empty() || lens[0] != 0.0 {
@@ -598,6 +609,12 @@ pub fn generate(tier: &str, seed: u64, out: &mut Out) {
     {
         let pts = vec![Cp { x: 0.0, y: 0.0, ty: 3, deg: 0 }, Cp { x: 1e-20, y: 0.0, ty: 0, deg: 0 }];
         run_case(&CurveCase { mode: 0, pts, len: Some(1e-17) }, "corpus", true, out);
+    }
+    // D14: ill-conditioned three-point perfect curve -> NaN path, NaN lengths
+    {
+        let pts = vec![Cp { x: 95545.0, y: 61255.0, ty: 4, deg: 0 }, Cp { x: 152569.5, y: 20636.51, ty: 0, deg: 0 }, Cp { x: 152569.5, y: 20636.5, ty: 0, deg: 0 }];
+        run_case(&CurveCase { mode: 2, pts: pts.clone(), len: None }, "corpus", true, out);
+        run_case(&CurveCase { mode: 2, pts, len: Some(100.0) }, "corpus", true, out);
     }
     // empty list, single points
     for mode in 0..4u8 {
